@@ -46,7 +46,9 @@ MANIFEST = dict(
          "FlowSampler attribute; the oracle demands the property on every run (counts, order, births, recomputation, "
          "logL/logP re-evaluated at every returned sample, dictionary = json result file = sampler attributes; every public quantity "
          "read again in several orders - effective sample size first, dictionary twice, weights/ESS/weights - must still be the "
-         "recomputed value).",
+         "recomputed value). The evidence state of the importance sampler is ALSO regenerated from the source on every run "
+         "(pylogvec2lean: _INSIntegralState.update_evidence / logZ / log_posterior_weights and log_evidence_from_ins_samples -> "
+         "Gen/InsState.lean) and proved equal to the model's insWeights / insZ / insPostW (ins_*_source_eq_model).",
     note="Resuming is the identity on the modelled state only for checkpoints written at iteration boundaries (periodic / final); "
          "checkpoints written inside consume_sample (signal window F4, checkpoint_on_training F25) are outside the theorems. "
          "'stored logL/logP equal the model evaluated at the sample' is a statement about user code; proved is only "
@@ -56,7 +58,8 @@ MANIFEST = dict(
          "returned samples), not modelled in Lean. exp() of the returned log-likelihoods enters the Rat models as 100-bit "
          "dyadics. Outside the domain: prior_sampling=True, and runs with redrawn final samples (draw_final_samples raises in "
          "this version: C20); for the latter only the table theorem speaks.",
-    technique="Lean 4 proof (invariant by induction over iterations; field algebra; decided tables from an AST translator) + "
+    technique="Lean 4 proof (invariant by induction over iterations; field algebra; decided tables from an AST translator; INS "
+              "evidence state translated from the source and proved equal to the model) + "
               "trace replay of real runs through the model + exact recomputation + oracle",
     ref="5/C05")
 
@@ -82,6 +85,49 @@ def gen(ctx):
         ctx.broken(f"translator: result tables could not be regenerated from the current source: {e}",
                    "Gen/Results.lean was left as generated from an earlier tree; result_keys_read_sampler_attributes was "
                    "checked against that text only")
+
+
+    gen_ins_state(ctx)
+
+
+def gen_ins_state(ctx):
+    """regenerate Gen/InsState.lean: _INSIntegralState.update_evidence, .logZ, .log_posterior_weights and
+    log_evidence_from_ins_samples translated from the current source (harness/pylogvec2lean.py); C05.ins_*_source_eq_model are
+    re-proved on every run."""
+    from . import pylogvec2lean as V
+    specs = [
+        V.VecSpec(source="nessai/evidence.py", cls="_INSIntegralState", func="update_evidence", name="update_evidence", params=[],
+                  rec_params={"nested_samples": ("nsL", "nsW")}, opt_rec_params={"live_points": "live"}, result="List K × K × Nat",
+                  result_attrs=["_weights", "_logZ", "_n"], lsum="sumL",
+                  doc="returns (`_weights`, `_logZ`, `_n`); a record array is its (`logL`, `logW`) columns"),
+        V.VecSpec(source="nessai/evidence.py", cls="_INSIntegralState", func="logZ", name="logZ", params=[], result="K",
+                  self_attrs={"_logZ": ("u_logZ", V.LOG), "_n": ("u_n", V.NAT)}, lsum="sumL"),
+        V.VecSpec(source="nessai/evidence.py", cls="_INSIntegralState", func="log_posterior_weights", name="log_posterior_weights",
+                  params=[], result="List K", lsum="sumL", extra_binders="(u_logZ : K) (u_n : Nat)",
+                  self_attrs={"_weights": ("u_weights", V.VLOG), "logZ": ("(logZ u_logZ u_n)", V.LOG)}),
+        V.VecSpec(source="nessai/evidence.py", func="log_evidence_from_ins_samples", name="log_evidence_from_ins_samples", params=[],
+                  rec_params={"samples": ("sL", "sW")}, result="K", lsum="sumL"),
+    ]
+    parts, infos = [], {}
+    try:
+        for sp in specs:
+            lean, info = V.translate(core.REPO, sp)
+            parts.append(lean)
+            infos[sp.func] = info
+    except py2lean.TranslationError as e:
+        ctx.broken(f"translator: {e}", "Gen/InsState.lean was left as it was (the theorems are about the last translatable source)")
+        return
+    except (OSError, SyntaxError) as e:
+        ctx.broken(f"translator: cannot read/parse the source: {e}")
+        return
+    text = ("import NessaiVerif.Model.Quadrature\n"
+            "/-\nGENERATED by harness/pylogvec2lean.py (harness/c05.py gen_ins_state) from the CURRENT nessai source — do not edit.\n"
+            "C05 / C15: the evidence state of the importance sampler, log vectors -> linear domain.\n-/\n"
+            "namespace NessaiVerif.Gen.InsState\nopen NessaiVerif NessaiVerif.Quad\n\n"
+            "variable {K : Type} [Add K] [Sub K] [Mul K] [Div K] [OfNat K 0] [NatCast K]\n\n"
+            + "\n".join(parts) + "\nend NessaiVerif.Gen.InsState\n")
+    rewritten = py2lean.write_if_changed(core.LEAN / "NessaiVerif" / "Gen" / "InsState.lean", text)
+    ctx.extra.setdefault("generated", {}).update(dict(ins_state=infos, ins_state_rewritten=rewritten))
 
 
 # ================================================================================================ helpers
